@@ -104,10 +104,14 @@ def one_step(M, f, jac, y, h, dtype, mask, via, implicit, cache=None):
         m = M(y.shape, dtype=np.dtype(dtype))
     elif via == "ctor":
         m = M(y.shape, dtype=np.dtype(dtype), staggered_mask=mask)
-    if via == "system" and not implicit:
+    if via in ("system", "system-kick-first") and not implicit:
         a = de.OdeSystem(f, y0=y.copy(), t=(dtype(0), dtype(h)), dt=dtype(abs(h)))
-        a.method = M
-        a.set_kick_vars(mask)
+        if via == "system":
+            a.method = M
+            a.set_kick_vars(mask)
+        else:
+            a.set_kick_vars(mask)      # while the default (non-symplectic) method is still selected
+            a.method = M
         if cache is not None:
             cache["m"] = a.integrator; cache["rhs"] = a.equ_rhs; cache["sys"] = a
         new_dt, (dT, dY) = a.integrator(a.equ_rhs, dtype(0), y, {}, dtype(h))
@@ -284,7 +288,7 @@ def run_case(case):
 
 def run(ctx):
     ctx.rule = ("6 symplectic-flagged methods x 5 separable Hamiltonians x state lattice x h in +-{0.5, 0.1, 0.01} x state layouts/kick masks "
-                "(default, constructor mask, set_kick_vars through OdeSystem, interleaved, swapped) x {fresh integrator per evaluation, ONE integrator object reused for all evaluations}; Jacobian of the REAL one-step map "
+                "(default, constructor mask, set_kick_vars through OdeSystem before / after the method is selected, interleaved, swapped) x {fresh integrator per evaluation, ONE integrator object reused for all evaluations}; Jacobian of the REAL one-step map "
                 "(exact columns for quadratic H, central differences otherwise); reversibility for the symmetric schemes; 4096-step energy runs; table identities; "
                 "distinct = distinct (section, method, H, layout, via, sign) classes")
     ctx.assumptions += [
@@ -299,9 +303,9 @@ def run(ctx):
         implicit = getattr(M, "tableau_final", None) is not None
         for H in ("harmonic", "coupled", "pendulum", "henon", "quartic"):
             dof = hamiltonian(H)[0]
-            lays = [("default", "default")] if implicit else [("default", "default"), ("default", "ctor"), ("default", "system"), ("swapped", "ctor"), ("swapped", "system")]
+            lays = [("default", "default")] if implicit else [("default", "default"), ("default", "ctor"), ("default", "system"), ("swapped", "ctor"), ("swapped", "system"), ("swapped", "system-kick-first")]
             if dof == 2:
-                lays = lays + ([("interleaved", "default")] if implicit else [("interleaved", "ctor"), ("interleaved", "system")])
+                lays = lays + ([("interleaved", "default")] if implicit else [("interleaved", "ctor"), ("interleaved", "system"), ("interleaved", "system-kick-first")])
             for lay, via in lays:
                 for h in hs:
                     if ctx.quick and implicit and abs(h) == 0.01:
